@@ -87,7 +87,11 @@ OPS = [
     ("time_shift 0", floaty, lambda z: pb.time_shift(z, 0)),
     ("freq_shift scalar", is_bb, lambda z: pb.freq_shift(z, z.sample_rate / 8)),
     ("freq_shift per-chan", is_bb, lambda z: pb.freq_shift(z, per_chan(z, [1.0, -2.5, 0.0]) * z.sample_rate / len(z))),
+    ("freq_shift zero", is_bb, lambda z: pb.freq_shift(z, 0 * u.Hz)),
+    ("freq_shift zero array", is_bb, lambda z: pb.freq_shift(z, per_chan(z, [0.0]) * u.kHz)),
+    ("time_shift with -0.0 entries", lambda z: floaty(z) and z.ndim >= 2, lambda z: pb.time_shift(z, per_chan(z, [-0.0, 1.5, -0.0]))),
     ("snippet whole", any_sig, lambda z: pb.snippet(z, 2, 4)),
+    ("snippet a few nano-samples past a whole sample", floaty, lambda z: pb.snippet(z, 2 + 5e-9, 4)),
     ("snippet fractional", floaty, lambda z: pb.snippet(z, 1.5, 4)),
     ("snippet Quantity", floaty, lambda z: pb.snippet(z, 2.25 / z.sample_rate, 3)),
     ("snippet Time", lambda z: floaty(z) and has_start(z), lambda z: pb.snippet(z, z.start_time + 2.5 / z.sample_rate, 3)),
